@@ -386,7 +386,7 @@ COMPONENTS = {
         'mc': {'quick': [{'cfg': 'MC_Readiness.cfg', 'module': 'Readiness'}], 'thorough': [{'cfg': 'MC_Readiness.cfg', 'module': 'Readiness'}]},
         'trace_module': 'Trace_Stacks', 'trace_cfg_tmpl': 'Trace_Stacks.cfg.tmpl',
         'harness': 'stacks',
-        'random': {'quick': [{'runs': 600}], 'thorough': [{'runs': 8000}]},
+        'random': {'quick': [{'runs': 1500}], 'thorough': [{'runs': 20000}]},
         'corrupt': _stacks_corrupt,
     },
     'listeners': {
